@@ -747,7 +747,7 @@ def havoc(ex, modifies, env, st, c):
         ent = ex.reg.classes.get(h.cls, {})
         decl = dict(ent.get('fields', {}))
         decl.update(ent.get('ghost', {}))
-        if parts[-1] in decl and not (isinstance(decl[parts[-1]], tuple) and decl[parts[-1]][0] == 'obj'):
+        if parts[-1] in decl:
             h.fields[parts[-1]] = ex.fresh(decl[parts[-1]], path, st)
         else:
             h.fields[parts[-1]] = havoc_val(ex, cur, path, st)
@@ -768,6 +768,8 @@ def havoc_val(ex, cur, path, st):
             return st.alloc(HList(h.etype, z3.Const(fresh_name(path), z3.SeqSort(sort_of(h.etype)))))
         if isinstance(h, HDict):
             return st.alloc(ex.fresh_dict(h.ktype, h.vtype, path))
+        if isinstance(h, HObj):
+            return ex.fresh_obj(h.cls, path, st)
         raise Unsupported('havoc of object field %s' % path)
     if isinstance(cur, VOpt):
         return VOpt(z3.Bool(fresh_name(path + '?none')), havoc_val(ex, cur.val, path, st))
